@@ -1,6 +1,7 @@
 package main
 
 import (
+	"sync"
 	"bufio"
 	"bytes"
 	"encoding/json"
@@ -136,12 +137,39 @@ func replayNative(P *interp.Program, ws []*interp.Witness, work string) (map[int
 			return n
 		}
 		pkgDir := filepath.Join(P.Repo, strings.TrimPrefix(pkg, module))
-		run := exec.Command(bin, "-test.run", "^TestVerifReplay$", "-test.v", "-test.timeout", "20m")
-		run.Dir = pkgDir
-		run.Env = append(os.Environ(), "VERIF_WITNESSES="+wpath)
-		out, err := run.CombinedOutput()
-		log.Write(out)
-		parse(out)
+		// many witnesses: replay in concurrent shards (witness i goes to shard i mod n)
+		nw := 0
+		for _, w := range ws {
+			if w.Pkg == pkg {
+				nw++
+			}
+		}
+		shards := 1
+		if nw > 24 {
+			shards = 8
+		}
+		outs := make([][]byte, shards)
+		errs := make([]error, shards)
+		var wg sync.WaitGroup
+		for k := 0; k < shards; k++ {
+			wg.Add(1)
+			go func(k int) {
+				defer wg.Done()
+				run := exec.Command(bin, "-test.run", "^TestVerifReplay$", "-test.v", "-test.timeout", "20m")
+				run.Dir = pkgDir
+				run.Env = append(os.Environ(), "VERIF_WITNESSES="+wpath, fmt.Sprintf("VERIF_SHARD=%d/%d", k, shards))
+				outs[k], errs[k] = run.CombinedOutput()
+			}(k)
+		}
+		wg.Wait()
+		var err error
+		for k := 0; k < shards; k++ {
+			log.Write(outs[k])
+			parse(outs[k])
+			if errs[k] != nil {
+				err = errs[k]
+			}
+		}
 		if err != nil {
 			// the process died (e.g. memory exhaustion inside one witness):
 			// replay every witness that has no result yet in its own process
